@@ -32,6 +32,7 @@ TOP(t) == [h |-> "top", e |-> t]          \* a sequence rooted at the dataset
 EVSEQ  == [h |-> "evseq"]
 KEY(s) == [h |-> "key", c |-> s]
 ICONST == [h |-> "iconst"]
+FNCALL == [h |-> "fncall"]                \* a call of one of the supplied C++ functions named in Prof.letfn
 
 \* intermediate results that a later top-level step takes apart: (seq, seq) tuples and {"ca": .., "cb": ..} dicts
 TUP(t1, t2) == [h |-> "tup", v |-> <<t1, t2>>]
@@ -59,6 +60,7 @@ MinTok(h) ==
     [] h.ty.h = "obj" -> IF VarsOf(h.env, h.ty) # {} THEN 1 ELSE 3
     [] h.ty.h \in {"seq", "vec"} -> IF VarsOf(h.env, S(h.ty.e)) # {} THEN 1 ELSE 2
     [] h.ty.h = "evseq" -> 1
+    [] h.ty.h = "fncall" -> 2
     [] h.ty.h = "top" -> 3
 RECURSIVE MinToks(_, _)
 MinToks(hs, i) == IF i > Len(hs) THEN 0 ELSE MinTok(hs[i]) + MinToks(hs, i + 1)
@@ -111,6 +113,8 @@ NumProds(env) ==
   \cup {P(Tok("Math", f[1], "", f[2], 1), [i \in 1..f[2] |-> Hole(N, env)]) : f \in Prof.math}
   \* (lambda x: <num>)(<argument of type t>)
   \cup {P(Tok("Let", Fresh(env), "", 0, 1), <<Hole(t, env), Hole(N, Ext(env, Fresh(env), t))>>) : t \in Prof.letcall}
+  \* (lambda x: <num>)(f(..)): the value of a supplied function bound once and used in the body
+  \cup (IF Prof.letfn # {} THEN {P(Tok("Let", Fresh(env), "", 0, 1), <<Hole(FNCALL, env), Hole(N, Ext(env, Fresh(env), N))>>)} ELSE {})
   \cup (IF Prof.enums THEN {P(Tok("EnumArg", EnumValues[i], "", i - 1, 1), <<Hole(O("A"), env)>>) : i \in DOMAIN EnumValues} ELSE {})
   \cup {P(Tok("UserFn", UserFns[i].id, UserFns[i].style, Len(UserFns[i].params) + (IF UserFns[i].style = "method" THEN 1 ELSE 0), 1),
            (IF UserFns[i].style = "method" THEN <<Hole(O("A"), env)>> ELSE <<>>)
@@ -220,6 +224,9 @@ Prods(h) ==
                             {P(Tok("Root", "mytree", "myfile", n, 1),
                                <<Hole(TOP(ROW), <<>>)>> \o [i \in 1..n |-> Hole(KEY(<<"ca", "cb", "cc">>[i]), <<>>)]) : n \in Prof.rootnames}
     [] h.ty.h = "iconst" -> {P(Tok("Const", "int", "", i, 1), <<>>) : i \in Prof.iconsts}
+    [] h.ty.h = "fncall" -> {P(Tok("UserFn", UserFns[i].id, UserFns[i].style, Len(UserFns[i].params), 1),
+                               [j \in 1..Len(UserFns[i].params) |-> Hole(N, h.env)]) :
+                               i \in {i \in DOMAIN UserFns : UserFns[i].id \in Prof.letfn /\ UserFns[i].style = "function"}}
 
 ----------------------------------------------------------------------------
 (* the machine *)
